@@ -441,11 +441,38 @@ def c12(tr, sem=None):
                 pass_forced = any(x['id'] == n and x['start_node'] is not None for x in tr['graph']['nodes'])
                 if not pass_forced:
                     v.append(f'get_default of node {n} got {kw}, the body got {first[(n, max(invs))]}')
+    # where an execution was given up: the exception left the node's task, was reported as the outcome, or get_default ran
+    gave_up = set()
+    for e in _events(tr) + tr.get('after', []):
+        for d in e.get('done', []) or []:
+            st = d[1]
+            if isinstance(st, list) and st and st[0] == 'exc' and isinstance(st[1], list) and len(st[1]) == 4:
+                gave_up.add(tuple(st[1]))
+    r0 = tr['results'][0] if tr.get('results') else None
+    if r0 is not None and r0[0] in ('error', 'raised') and isinstance(r0[1], list) and len(r0[1]) == 4:
+        gave_up.add(tuple(r0[1]))
+    last_body = {}
+    defaulted = set()
+    for i, o in _obs(tr, ('body', 'default'), include_after=True):
+        if o[0] == 'body':
+            last_body[o[2]] = (o[3], o[4])
+        elif o[2] in last_body:
+            defaulted.add((o[2],) + last_body[o[2]])
     for (n, inv), k in natt.items():
         if n < len(tr['spec']['nodes']):
-            a = tr['spec']['nodes'][n].get('attempts') or 1
+            nd = tr['spec']['nodes'][n]
+            a = nd.get('attempts') or 1
             if k > a:
                 v.append(f'node {n} was invoked {k} times with attempts={a}')
+            # giving up early: the last attempt made is planned to fail with a retryable exception, attempts are left, and
+            # the run went on (it did not end, e.g. by another node's failure, while this node was between attempts)
+            plan = {(i, t): cls for i, t, cls in nd.get('fails') or []}
+            cls = plan.get((inv, k))
+            retryable = cls is not None and cls != 'B0' and (not nd.get('exceptions') or cls in nd['exceptions'])
+            if retryable and k < a and not nd.get('fail_hash') and not cancel_requested(tr) and \
+                    ((cls, n, inv, k) in gave_up or (n, inv, k) in defaulted):
+                v.append(f'node {n} (invocation {inv}) gave up after {k} of {a} attempts although attempt {k} failed with '
+                         f'the retryable {cls}')
     return v
 
 
